@@ -9,6 +9,10 @@ Operations (one per line; every operation answers with a block ending in `--`):
     step <l> | iter <l> | quit                      loop(s) advance: what they did is told by the `<` lines
     forceClose <c> | shutdown <c> | hold <c> | drop <c>     user code on the controller thread
     postDestroy         a functor destroying the server is queued on the base loop
+    holdHandover        schedule control only (harness: the base thread is parked right after its next hand-over of
+                        `connectEstablished` to an io loop, inside `newConnection`): nothing happens in the model - its
+                        `accept` step ends with that hand-over (`OwnerSkel.handover_is_last`), so the io loop's steps may
+                        follow at once
 
 Lines starting with `< ` precede the operation during which the implementation recorded them; each is one atomic
 step of the model:
@@ -64,6 +68,7 @@ def opAction (s : Srv) (ws : List String) : Option (Option Action) :=
   | ["step", _] => some none
   | ["iter", _] => some none
   | ["quit"] => some none
+  | ["holdHandover"] => some none
   | ["forceClose", c] => (parseNat c).map (fun c => some (.forceClose c foreign))
   | ["shutdown", c] => (parseNat c).map (fun c => some (.shutdown c foreign))
   | ["hold", c] => (parseNat c).map (fun c => some (.hold c))
